@@ -4,6 +4,8 @@ mutations / token soups (malformed stream).  Everything derives from the rng pas
 from vlib import core
 
 WS = [" ", "  ", "\t", "\n", " ", "　", " ", "\u0085", "\r\n", "  "]
+# the 25 White_Space code points Rust's str::trim removes
+WSCHARS = [chr(c) for c in list(range(9, 14)) + [32, 133, 160, 5760] + list(range(8192, 8203)) + [8232, 8233, 8239, 8287, 12288]]
 NAMES = ["b", "i", "a", "span", "count", "x1", "foo_bar", "a-b", "B", "link", "strong", "em", "n", "user_name", "_x", "t"]
 BAD_NAMES = ["type", "if", "_", "1a", "a b", "é", "a.b", "", "self", "fn"]
 TEXTS = ["hello", "a b", " ", "x > y", "é", "日本語", "😀", "}", ">", "/", ")", "(", ",", ".", ":", "-", "a/b", "　", "\n",
@@ -73,7 +75,11 @@ def gen_items(rng, depth=0, maxn=4):
         if r < 0.4:
             items.append(("T", rng.choice(TEXTS) if rng.random() < 0.8 else rng.choice(TEXTS) + rng.choice(TEXTS)))
         elif r < 0.7:
-            fm = gen_formatter(rng) if rng.random() < 0.3 else None
+            fm = None
+            if rng.random() < 0.3:
+                text, term = gen_formatter(rng)
+                t = text.rstrip("".join(WSCHARS))
+                fm = (t, text[len(t):], term)
             items.append(("V", w(rng), rng.choice(NAMES), w(rng), fm))
         elif depth < 4:
             n = rng.choice(NAMES[:6]) if rng.random() < 0.7 else rng.choice(NAMES)
@@ -89,7 +95,7 @@ def print_items(items):
             out.append(it[1])
         elif it[0] == "V":
             _, w1, n, w2, fm = it
-            out.append("{{" + w1 + n + w2 + (("," + fm[0]) if fm else "") + "}}")
+            out.append("{{" + w1 + n + w2 + (("," + fm[0] + fm[1]) if fm else "") + "}}")
         else:
             _, w1, n, w2, kids, a, b, c = it
             out.append("<" + w1 + n + w2 + ">" + print_items(kids) + "<" + a + "/" + b + n + c + ">")
@@ -103,7 +109,7 @@ def coq_items(items):
             out.append("SText %s" % core.coq_str(it[1]))
         elif it[0] == "V":
             _, w1, n, w2, fm = it
-            f = "(Some (%s, %s))" % (core.coq_str(fm[0]), fm[1]) if fm else "None"
+            f = "(Some (%s, %s, %s))" % (core.coq_str(fm[0]), core.coq_str(fm[1]), fm[2]) if fm else "None"
             out.append("SVar %s %s %s %s" % (core.coq_str(w1), core.coq_str(n), core.coq_str(w2), f))
         else:
             _, w1, n, w2, kids, a, b, c = it
